@@ -12,6 +12,13 @@ CFGS = [("native", {}), ("native", {"SODIUM_VERIF_CPUID1_ECX_CLEAR": "0x10000000
 
 def run(R):
     thorough = R.tier == "thorough"
+    # the final canonicalisation of the radix-2^51 backend on scaled limbs, every loosely reduced limb tuple
+    rm = R.tlc("sys/FePack.tla", "MCFePack.cfg", workers=6, timeout=900, heap="6g")
+    if rm.violated:
+        R.violation("FePack.tla: the packed value is not the canonical residue: " + rm.tail(30), rm.out, name="model")
+    if not R.tlc("sys/FePack.tla", "MCFePackBroken.cfg", workers=4, timeout=600, heap="6g").violated:
+        raise vlib.MachineryError("vacuity: a '>= p' test that skips a limb is not rejected by Canonical")
+    R.cov["pack_model"] = {"module": "FePack", "limb_bits": 3, "distinct": rm.distinct, "broken_variants_rejected": 1}
     R.build_all(sorted({v for v, _ in CFGS}))
     nrand = 2500 if thorough else 40
     merged = {}
